@@ -33,6 +33,9 @@ CHECKS = {
  "C07": ("exploration", "A", "deterministic simulation: seam-level read-only monitor on the scanned roots (fclones and its transform children) plus full inventories incl. directory mtimes",
          "Seeded dedicated runs over every transform I/O mode x read/ignore/fail/missing programs, --cache, -o FILE, all formats, and all 5 dedupe operations with --dry-run; oracle: no mutating libc call under a root, identical inventory, empty TMPDIR, cache under XDG_CACHE_HOME.",
          "atime not compared; the documented exception (program writing $IN under --no-copy) judged on fclones' own calls only", "4/C07"),
+ "C08": ("exploration", "A", "deterministic simulation: real group+dedupe processes with seam-relabelled timestamps vs executable model of the documented selection rule",
+         "Seeded groups (hard-link subsets, roots, nesting, tied timestamps) x option sets given on the command line or inherited from the report header; the paths changed by the real run (seam trace) and the paths named by --dry-run must both equal the model's drop set; any panic/non-zero exit is a violation.",
+         "globs restricted to literal/*/**/?; plain names; model written from the documentation", "4/C08"),
 }
 NOT_APPLICABLE = {
  "C16": "pure function of (glob pattern, string): no schedule, clock, fault, stream or history for a simulator to control; needs bounded-exhaustive input enumeration against a reference matcher, which is a different technique (DESIGN section 5)",
